@@ -193,6 +193,91 @@ def _module_table_sites(idx, rel, name):
     return sites
 
 
+IO_NAMES = {"open", "listdir", "stat", "read", "write", "reader", "writer", "load", "loads", "dump", "dumps", "getenv", "environ", "time", "now", "today", "random",
+            "uuid4", "urandom", "glob", "walk", "exists", "isfile", "isdir", "getmtime", "getsize", "input", "connect", "get", "post", "request"}
+
+
+def _pure_memo(idx, ci, attr):
+    """Is the class-level dict `attr` only a memo of a deterministic construction?  Accepted shape, all of it required:
+      * the dict is touched in exactly one private class/static method of the class, and nowhere else in the package;
+      * there only through `.get(k)`, `k in d`, `d[k]` and one store `d[k] = v`, with k a parameter (or a tuple of parameters) of that method;
+      * v is a call of a name imported from outside the package (stdlib / third party; not an I/O, clock or random name), whose arguments mention
+        nothing but the method's parameters and constants (no self/cls state, no package object).
+    Then every entry is a function of its key alone: what an earlier job left is what this job would have built.  Returns the reason or None."""
+    cname = ci.name
+    users = []
+    for fi in idx.all_funcs():
+        for n in ast.walk(fi.node):
+            if isinstance(n, ast.Attribute) and n.attr == attr and isinstance(n.value, ast.Name) and (
+                    n.value.id in (cname,) or (n.value.id in ("cls", "self") and fi.cls and (fi.cls == cname or cname in [c.name for c in idx.mro(fi.cls)]))):
+                users.append(fi)
+    users = {id(f.node): f for f in users}
+    if len(users) != 1:
+        return None
+    m = next(iter(users.values()))
+    if m.cls != cname or not m.name.startswith("_") or not any(isinstance(d, ast.Name) and d.id in ("classmethod", "staticmethod") for d in m.node.decorator_list):
+        return None
+    params = [a.arg for a in m.node.args.posonlyargs + m.node.args.args + m.node.args.kwonlyargs]
+    params = [p_ for p_ in params if p_ not in ("cls", "self")]
+    parents = {}
+    for p_ in ast.walk(m.node):
+        for ch in ast.iter_child_nodes(p_):
+            parents[id(ch)] = p_
+
+    def is_key(e):
+        if isinstance(e, ast.Name):
+            return e.id in params
+        return isinstance(e, ast.Tuple) and e.elts and all(isinstance(x, ast.Name) and x.id in params for x in e.elts)
+
+    stored = []
+    for n in ast.walk(m.node):
+        if not (isinstance(n, ast.Attribute) and n.attr == attr):
+            continue
+        par = parents.get(id(n))
+        gpar = parents.get(id(par))
+        if isinstance(par, ast.Subscript) and par.value is n and is_key(par.slice):
+            if isinstance(par.ctx, ast.Store):
+                if not (isinstance(gpar, ast.Assign) and len(gpar.targets) == 1):
+                    return None
+                stored.append(gpar.value)
+            elif not isinstance(par.ctx, ast.Load):
+                return None
+        elif isinstance(par, ast.Attribute) and par.value is n and par.attr == "get" and isinstance(gpar, ast.Call) and gpar.args and is_key(gpar.args[0]):
+            pass
+        elif isinstance(par, ast.Compare) and n in par.comparators and is_key(par.left):
+            pass
+        else:
+            return None
+    if len(stored) != 1:
+        return None
+    v = stored[0]
+    if isinstance(v, ast.Name):
+        # the local that is stored: what it holds besides the look-up in the memo itself
+        vals = [a.value for a in ast.walk(m.node) if isinstance(a, ast.Assign) and len(a.targets) == 1 and isinstance(a.targets[0], ast.Name) and a.targets[0].id == v.id]
+        vals = [x for x in vals if not (isinstance(x, ast.Call) and isinstance(x.func, ast.Attribute) and x.func.attr == "get" and isinstance(x.func.value, ast.Attribute) and x.func.value.attr == attr)
+                and not (isinstance(x, ast.Subscript) and isinstance(x.value, ast.Attribute) and x.value.attr == attr)]
+        if len(vals) != 1:
+            return None
+        v = vals[0]
+    if not (isinstance(v, ast.Call) and isinstance(v.func, ast.Name)):
+        return None
+    callee = v.func.id
+    imported_outside = False
+    for st in idx.files[ci.file][1].body:
+        if isinstance(st, ast.ImportFrom) and st.level == 0 and not (st.module or "").startswith(idx.pkg) and any((a.asname or a.name) == callee for a in st.names):
+            imported_outside = True
+    if not imported_outside or callee.lower() in IO_NAMES:
+        return None
+    for a in list(v.args) + [k.value for k in v.keywords]:
+        for x in ast.walk(a):
+            if isinstance(x, ast.Name) and x.id not in params:
+                return None
+            if isinstance(x, (ast.Attribute, ast.Call, ast.Subscript)):
+                return None
+    return (f"{cname}.{attr} is filled only by {m.qual} with `{unparse(v)[:70]}` under the key `{unparse(stored[0])[:30]}`-independent inputs {params}: "
+            "each entry is a function of its key alone")
+
+
 def r1(idx, rep):
     n = 0
     for cname, cis in sorted(idx.classes.items()):
@@ -211,6 +296,10 @@ def r1(idx, rep):
                     continue
                 if (cname, "registry") in ALLOWED_CLASS_STATE and len([a for a, vv in ci.class_assigns.items() if _is_container(vv) and (cname, a) not in CONSTANT_TABLES]) == 1:
                     rep.ok("R1", key + " (listed registry)", ALLOWED_CLASS_STATE[(cname, "registry")], ci.file)
+                    continue
+                memo = _pure_memo(idx, ci, attr)
+                if memo:
+                    rep.ok("R1", key + f" {attr} is a memo of a pure construction", memo, ci.file)
                     continue
                 rep.fail("R1", key + f" {attr}", f"`{attr} = {unparse(v)[:60]}` is state shared by every instance in the process and outlives a run: a later job can see what an earlier one left "
                                                  f"(not in the allow-list: {sorted(c for c, _ in ALLOWED_CLASS_STATE)})", ci.file)
